@@ -4,6 +4,7 @@ from decimal import Decimal
 from hypothesis import strategies as st
 
 from ..core import Check, Violation
+from .. import fuzz as _fuzz
 from ..gen import ast as A
 from ..gen import printer as P
 from ..ref import lexer as RL
@@ -403,4 +404,6 @@ CHECKS = [
     Check("print_reparse", check_roundtrip, roundtrip_case, quick=400, thorough=12000),
     Check("precedence", check_precedence, precedence_case, quick=400, thorough=12000),
     Check("error_points_at_token", check_error, error_case, quick=150, thorough=8000),
+    _fuzz.replay_check(["parse_tree"]),
 ]
+FUZZ = [("parse_tree", 1_000_000, 600)]
